@@ -348,6 +348,12 @@ impl ReceiveChannelReliable {
             .entry(slice.message_id)
             .or_insert_with(|| SliceConstructor::new(slice.message_id, slice.num_slices));
 
+        if slice_constructor.num_slices != slice.num_slices {
+            // All slices of a message must agree on the number of slices,
+            // the memory reserved for the message is based on it.
+            return Err(ChannelError::InvalidSliceMessage);
+        }
+
         if let Some(message) = slice_constructor.process_slice(slice.slice_index, &slice.payload)? {
             // Memory usage is re-added with the exactly message size
             self.memory_usage_bytes -= slice.num_slices * SLICE_SIZE;
